@@ -304,7 +304,7 @@ def c17(ck):
         e["outcome"] = "ok"
     events = stateless_check(
         ck, binary, "c17", "Trace_C17",
-        ["--maxlen", 9 if thorough else 6, "--capstok", 5 if thorough else 3, "--meta", 20000 if thorough else 300],
+        ["--maxlen", 10 if thorough else 6, "--capstok", 5 if thorough else 3, "--meta", 20000 if thorough else 300],
         [("Dest", to_panic), ("Dest", must_err_ok), ("Level", to_panic), ("CapsArg", to_panic)],
         lambda e, r: (f"Dest:{s_(e['dest'])}" if e["event"] == "Dest" else
                       f"Level:{e['kind']}:{e['level']}" if e["event"] == "Level" else
@@ -315,7 +315,7 @@ def c17(ck):
                          for e in events if e["outcome"] == "err"})
     ck.extra["outcomes"] = {f"{k}:{o}": sum(1 for e in events if e["event"] == k and e["outcome"] == o)
                             for k in ("Dest", "CapsArg", "Level", "Meta") for o in ("ok", "err")}
-    ck.rule = ("all destination strings over {/ . a b} up to length 6 (9 thorough) plus longer hostile ones; all "
+    ck.rule = ("all destination strings over {/ . a b} up to length 6 (10 thorough) plus longer hostile ones; all "
                "capability texts of <= 3 (4) tokens through FileOptions::caps + build; every compression type with "
                "levels across and beyond its range (one child process per case); seeded metadata strings; "
                "non-trivial = distinct arguments that must be / were rejected with an error")
@@ -785,7 +785,7 @@ def c10(ck):
     ck.add_validation(v, traces=neps)
     rej = ck.expect_canary(v["rejects"], canaries)
     add_rejects(ck, rej, by_id, lambda e, r: f"{e.get('pkg')}:{e.get('path', 'start')}" if e else "?")
-    lifecycle_walks(ck, binary, "C10", 300 if thorough else 40)
+    lifecycle_walks(ck, binary, "C10", 1200 if thorough else 40)
     steps = [e for e in events if e["event"] == "Step" and e["id"] in by_id]
     ck.evaluations = len(steps)
     ck.nontrivial = len({(e["pkg"], e["path"]) for e in steps})
@@ -934,7 +934,7 @@ def c06(ck):
         # two user-supplied dependencies of one kind come back in the wrong order
         pass
     events = stateless_check(
-        ck, binary, "c06", "Trace_C06", ["--n", 3000 if thorough else 250],
+        ck, binary, "c06", "Trace_C06", ["--n", 12000 if thorough else 250],
         [("Build", set_get("get_name", lambda g: g["res"]["ok"].append(33))),
          ("Build", set_get("get_changelog_entries", lambda g: g["res"].__setitem__("ok", g["res"]["ok"][::-1] + [{"a": [1], "b": [0, 0], "c": []}]))),
          ("Build", lambda e: e["cfg"].__setitem__("packager", {"some": [110, 111, 98, 111, 100, 121]})),
@@ -997,7 +997,7 @@ def c11(ck):
         raise ToolError("MC_Determinism_hashset: the specification does not reject hash-set iteration order")
     ck.extra["design_counterexample"] = "emitting recommends in hash-set iteration order violates DetAction (as expected)"
     tr = ck.scratch / "c11.ndjson"
-    vlib.run_harness(binary, ["c11", "--out", tr, "--seed", ck.seed, "--n", 150 if thorough else 24], timeout=3000)
+    vlib.run_harness(binary, ["c11", "--out", tr, "--seed", ck.seed, "--n", 600 if thorough else 24], timeout=6000)
     events = read_ndjson(tr)
     by_id = {e["id"]: e for e in events}
     nid = max(by_id) + 1
@@ -1111,7 +1111,7 @@ def run_files(ck, binary, own, extra_args, gen=True, tag="c07"):
 def c07(ck):
     binary = vlib.build_harness()
     ck.add_tlc(vlib.mc("MC_Cpio", "MC_Cpio.cfg", ck.scratch, workers=8, timeout=1800))
-    files = run_files(ck, binary, ("C07:",), ["--n", 300 if ck.tier == "thorough" else 40, "--stripped", 30 if ck.tier == "thorough" else 6])
+    files = run_files(ck, binary, ("C07:",), ["--n", 1500 if ck.tier == "thorough" else 40, "--stripped", 120 if ck.tier == "thorough" else 6])
     ck.evaluations = len(files)
     ck.nontrivial = len({(origin_kind(e), len(e["files"]), len(e["ents"]), e["compressor"], tuple(x.get("size") for x in e["ents"])) for e in files})
     kinds = {}
@@ -1135,10 +1135,10 @@ def c08(ck):
     binary = vlib.build_harness()
     thorough = ck.tier == "thorough"
     # (1) header SHA-256, payload digest, alternate (uncompressed) payload digest of built / signed / cleared packages
-    events = run_pkg(ck, binary, ["--families", "built", "--n", 200 if thorough else 45, "--gets", "0"], own=("C08:",), tag="c08pkg")
+    events = run_pkg(ck, binary, ["--families", "built", "--n", 800 if thorough else 45, "--gets", "0"], own=("C08:",), tag="c08pkg")
     with_dig = [e for e in events if "dig" in e and e.get("emitted")]
     # (2) per-file digests and large / incompressible payloads for every codec
-    files = run_files(ck, binary, ("C08:",), ["--n", 200 if thorough else 30, "--stripped", 10 if thorough else 3], gen=False, tag="c08files")
+    files = run_files(ck, binary, ("C08:",), ["--n", 800 if thorough else 30, "--stripped", 40 if thorough else 3], gen=False, tag="c08files")
     # (3) the hashing writer in front of short-accepting sinks
     tr = ck.scratch / "c08hash.ndjson"
     vlib.run_harness(binary, ["c14", "--out", tr, "--seed", ck.seed, "--families", "hash"])
@@ -1150,7 +1150,7 @@ def c08(ck):
     ck.add_validation(v)
     rej = ck.expect_canary(v["rejects"], [c["id"]])
     add_rejects(ck, rej, hid, lambda e, r: f"HashRun:{e.get('mode')}:{e.get('split')}" if e else "?")
-    lifecycle_walks(ck, binary, "C08", 300 if thorough else 40)
+    lifecycle_walks(ck, binary, "C08", 1200 if thorough else 40)
     ck.evaluations = len(with_dig) * 3 + sum(len(e["files"]) for e in files if e.get("emitted")) + len(hv)
     ck.nontrivial = len({e["dig"]["payload"]["calc"] for e in with_dig}) + len({f["digest"] for e in files for f in e["files"]}) + len({(e["mode"], e["split"]) for e in hv})
     ck.extra.update(packages_with_three_digests=len(with_dig), file_digests=sum(len(e["files"]) for e in files if e.get("emitted")),
@@ -1184,7 +1184,7 @@ def c12(ck):
     def esc(e):
         e["outside_diff"] = [{"path": "j1/j2/jail/out/victim", "before": "file", "after": "file"}]
     events = stateless_check(
-        ck, binary, "c12", "Trace_C12", ["--cases", cases, "--n", 300 if thorough else 40],
+        ck, binary, "c12", "Trace_C12", ["--cases", cases, "--n", 1500 if thorough else 40],
         [("Extract", esc), ("ExtractBuilt", esc)],
         lambda e, r: (f"Extract:{json.dumps(e['entries'], sort_keys=True)}:{e['outcome']}" if e["event"] in ("Extract", "Panic") and "entries" in e
                       else f"{e['event']}:{e.get('i')}:{e.get('outcome')}") if e else "?",
@@ -1228,7 +1228,7 @@ def c04(ck):
     def hungry(e):
         e["worst_peak"] = 1048576 + 64 * e["input_len"] + 1
     events = stateless_check(
-        ck, binary, "c04", "Trace_C04", ["--cases", cases, "--mutants", 30000 if thorough else 2500],
+        ck, binary, "c04", "Trace_C04", ["--cases", cases, "--mutants", 150000 if thorough else 2500],
         [("Outcome", aborted), ("Outcome", panicked), ("Outcome", hungry)],
         lambda e, r: (f"{e.get('family')}:{e.get('exit')}:" + (",".join(sorted({p['op'] + ' ' + p.get('msg', '')[:60] for p in e.get('panics', [])})) or
                       (json.dumps(e.get('input'), sort_keys=True)[:200] if e.get('exit') != 'normal' else 'alloc'))) if e else "?",
